@@ -138,6 +138,146 @@ fn cmd_trace(path: &str, threads: usize) {
     }
 }
 
+// ---------------------------------------------------------------- S3/S4: direct calls
+fn hexu(s: &str) -> u64 {
+    u64::from_str_radix(s, 16).unwrap()
+}
+
+fn src_pos(src: &GenerationSource) -> String {
+    match src {
+        GenerationSource::Arbitrary(u) => format!("{}", u.len()),
+        GenerationSource::Rand(rng) => format!("{}", rng.get_word_pos()),
+    }
+}
+
+fn opt<T, F: Fn(T) -> String>(o: Option<T>, f: F) -> String {
+    match o {
+        Some(x) => format!("some:{}", f(x)),
+        None => "none".into(),
+    }
+}
+
+fn adapt_op(op: &str, rate: f64, src: &mut GenerationSource) -> String {
+    let a: Vec<&str> = op.split(':').collect();
+    match a[0] {
+        "ci" => format!("{:x}", src.choose_index(hexu(a[1]) as usize)),
+        "gr" => format!("{:x}", src.gen_range(hexu(a[1]) as usize, hexu(a[2]) as usize)),
+        "u8" => format!("{:x}", src.gen_u8()),
+        "u16" => format!("{:x}", src.gen_u16()),
+        "u32" => format!("{:x}", src.gen_u32()),
+        "i32" => format!("{:x}", src.gen_i32() as u32),
+        "i64" => format!("{:x}", src.gen_i64() as u64),
+        "f64" => format!("{:x}", src.gen_f64().to_bits()),
+        "bool" => format!("{}", src.gen_bool() as u8),
+        "sm" => format!("{}", src.should_mutate(rate) as u8),
+        "by" => hex(&src.gen_bytes(hexu(a[1]) as usize)),
+        "ac" => format!("{:x}", src.gen_ascii_char() as u32),
+        "mi" => opt(mk_mutator(&a[1].replace('.', ":")).mutate_int(hexu(a[2]) as u32 as i32, src, rate), |x| format!("{:x}", x as u32)),
+        "ml" => opt(mk_mutator(&a[1].replace('.', ":")).mutate_long(hexu(a[2]) as i64, src, rate), |x| format!("{:x}", x as u64)),
+        "mf" => opt(mk_mutator(&a[1].replace('.', ":")).mutate_float(f64::from_bits(hexu(a[2])), src, rate), |x| format!("{:x}", x.to_bits())),
+        "ms" => opt(
+            mk_mutator(&a[1].replace('.', ":")).mutate_string(String::from_utf8(unhex(a[2])).unwrap(), src, rate),
+            |x| hex(x.as_bytes()),
+        ),
+        "mb" => opt(mk_mutator(&a[1].replace('.', ":")).mutate_bytes(unhex(a[2]), src, rate), |x| hex(&x)),
+        "mm" => opt(mk_mutator(&a[1].replace('.', ":")).mutate_memo_index(hexu(a[2]) as usize, src, rate), |x| format!("{:x}", x)),
+        "pp" => {
+            let delta = unhex(a[2]);
+            let prefix = unhex(a[3]);
+            let snap = EmissionSnapshot {
+                stack_depth: 0,
+                output_len: prefix.len(),
+                memo_size: 0,
+                stack_delta: Vec::new(),
+                output_delta: delta.clone(),
+                memo_delta: Vec::new(),
+            };
+            let mut out = prefix.clone();
+            out.extend_from_slice(&delta);
+            let fired = mk_mutator(&a[1].replace('.', ":")).post_process(&snap, &mut out, src, rate);
+            format!("{}:{}", fired as u8, hex(&out))
+        }
+        _ => panic!("unknown op {}", op),
+    }
+}
+
+fn adapt_case(line: &str) -> Vec<String> {
+    let m = kv(line);
+    let mut out = vec![format!("CASE {}", line)];
+    let rate = f64::from_bits(u64::from_str_radix(&m["rate"], 16).unwrap());
+    let ops: Vec<&str> = m["ops"].split(';').collect();
+    let srcs = &m["src"];
+    let run = |src: &mut GenerationSource, out: &mut Vec<String>| {
+        for (i, op) in ops.iter().enumerate() {
+            let r = catch_unwind(AssertUnwindSafe(|| adapt_op(op, rate, src)));
+            match r {
+                Ok(v) => out.push(format!("R {} {} {} pos={}", i, op, v, src_pos(src))),
+                Err(e) => {
+                    out.push(format!("R {} {} panic:{} pos=?", i, op, panic_msg(e).replace(' ', "_")));
+                    break;
+                }
+            }
+        }
+    };
+    if let Some(s) = srcs.strip_prefix("seed:") {
+        let mut rng = ChaCha8Rng::seed_from_u64(s.parse().unwrap());
+        let mut src = GenerationSource::Rand(&mut rng);
+        run(&mut src, &mut out);
+    } else {
+        let data = unhex(srcs.strip_prefix("bytes:").unwrap());
+        let mut u = arbitrary::Unstructured::new(&data);
+        let mut src = GenerationSource::Arbitrary(&mut u);
+        run(&mut src, &mut out);
+    }
+    out.push("END".into());
+    out
+}
+
+// ---------------------------------------------------------------- S5: call histories on one generator
+fn hist_case(line: &str) -> Vec<String> {
+    let m = kv(line);
+    let mut out = vec![format!("CASE {}", line)];
+    let mut g = mk_generator(&m);
+    let calls: Vec<&str> = m["hist"].split(';').collect();
+    let do_call = |g: &mut Generator, c: &str| -> Option<String> {
+        if c == "r" {
+            g.reset();
+            None
+        } else if let Some(s) = c.strip_prefix("s:") {
+            Some(run_src(g, &format!("seed:{}", s)))
+        } else {
+            Some(run_src(g, &format!("bytes:{}", c.strip_prefix("b:").unwrap())))
+        }
+    };
+    for (i, c) in calls.iter().enumerate() {
+        match do_call(&mut g, c) {
+            Some(r) => out.push(format!("H {} {}", i, r)),
+            None => out.push(format!("H {} reset", i)),
+        }
+    }
+    // the property's own comparison: a fresh generator receiving only the last call
+    let mut fresh = mk_generator(&m);
+    if let Some(r) = do_call(&mut fresh, calls[calls.len() - 1]) {
+        out.push(format!("FRESH {}", r));
+    }
+    out.push("END".into());
+    out
+}
+
+fn cmd_lines(path: &str, f: fn(&str) -> Vec<String>) {
+    let stdout = std::io::stdout();
+    let mut w = std::io::BufWriter::new(stdout.lock());
+    for l in std::io::BufReader::new(std::fs::File::open(path).unwrap()).lines() {
+        let l = l.unwrap();
+        if l.trim().is_empty() || l.starts_with('#') {
+            continue;
+        }
+        for o in f(&l) {
+            writeln!(w, "{}", o).unwrap();
+        }
+    }
+}
+
 /// first n 32-bit words of ChaCha8Rng::seed_from_u64(seed)
 fn cmd_words(seed: u64, n: usize) {
     use rand::RngCore;
@@ -151,9 +291,11 @@ fn main() {
     let a: Vec<String> = std::env::args().collect();
     match a.get(1).map(|s| s.as_str()) {
         Some("trace") => cmd_trace(&a[2], a.get(3).map(|s| s.parse().unwrap()).unwrap_or(16)),
+        Some("adapt") => cmd_lines(&a[2], adapt_case),
+        Some("hist") => cmd_lines(&a[2], hist_case),
         Some("words") => cmd_words(a[2].parse().unwrap(), a[3].parse().unwrap()),
         _ => {
-            eprintln!("usage: pf-harness trace <cases> [threads] | words <seed> <n>");
+            eprintln!("usage: pf-harness trace <cases> [threads] | adapt <cases> | hist <cases> | words <seed> <n>");
             std::process::exit(2);
         }
     }
